@@ -57,7 +57,7 @@ CLAIMED = {
         note=BASE + 'hash() uninterpreted. Relation / Constraint / FeatureModel laws are bounded only.'),
     'C17': dict(category='other', design_ref='DESIGN.md section 4 C17, section 9',
         text='Proved for all well-formed models: totality (no empty min/max/mean/median, no zero divisor, no missing key) and the size / ratio clauses of the '
-             '21 metric methods that use list-valued caches; the listing itself against its definition over the tree for compound / top / alternative-group / or-group / '
+             '25 metric methods that use list-valued caches; the sizes of the cross-tree / simple / requires / excludes constraint metrics against the documented forms; the listing itself against its definition over the tree for compound / top / alternative-group / or-group / '
              'mutex-group / cardinality-group / feature-group features (names in model order); get_ratio against its definition, the ancestors helper (invariant), frames of all 40 metric methods '
              'and of execute, report reset before delegation (history independence). Bounded: all 40 metrics against definitions computed on the model '
              'description, the identities, the filter, reused objects.',
